@@ -906,14 +906,16 @@ impl<B, State: Named> fmt::Debug for Flow<B, State> {
 
 #[cfg(hoot_verif)]
 #[allow(private_bounds)]
-impl<B, State: Named> Flow<B, State> {
+impl<B: fmt::Debug, State: Named> Flow<B, State> {
     /// Verification hook: dump of the complete internal state of the flow.
     pub fn verif_fingerprint(&self) -> String {
         let i = &self.inner;
         format!(
-            "Flow<{}>|{}|close={:?}|send_body={}|await100={}|status={:?}|location={:?}",
+            "Flow<{}>|{}|inner_dbg={:?}|close={:?}|send_body={}|await100={}|status={:?}|location={:?}",
             State::name(),
             i.call.verif_fingerprint(),
+            // derived Debug: any field added to Inner later shows up here without editing the hook
+            i,
             &i.close_reason[..],
             i.should_send_body,
             i.await_100_continue,
